@@ -22,6 +22,7 @@ type Clause struct {
 	E     Expr
 	Prop  string // property id this clause reports to ("" = block default)
 	Implicit bool
+	Assumed  bool // used at call sites, not checked against the body (an explicit assumption, listed in the evidence)
 	File  string
 	Line  int
 }
@@ -58,6 +59,7 @@ type FuncContract struct {
 	Safe     bool
 	Uses     []string
 	Reveals  []string
+	AssumedClauses []string
 	ModGhost []string // ghost variables the function may modify (trusted functions)
 	ModArgs  []string // pointer parameters whose pointee may be arbitrarily modified (trusted externals)
 	ModAll   bool     // trusted function may modify any modelled heap location
@@ -119,7 +121,7 @@ func NewSpecs() *Specs {
 	return &Specs{Funcs: map[string]*FuncContract{}, Spec: map[string]*SpecFunc{}, Axioms: map[string]*Axiom{}, Ghost: map[string]*GhostVar{}, Consts: map[string]string{}}
 }
 
-var kwRe = regexp.MustCompile(`^(func|iface|spec|macro|axiom|lemma|ghost|effectfree|property|requires|ensures|loop|let|trusted|pure|inline|noinline|safe|uses|modifies|noverify|at|sets|local|reveals|opaque|witness)\b`)
+var kwRe = regexp.MustCompile(`^(func|iface|spec|macro|axiom|lemma|ghost|effectfree|property|requires|ensures|loop|let|trusted|pure|inline|noinline|safe|uses|modifies|noverify|at|sets|local|reveals|opaque|witness|assumes)\b`)
 
 // LoadFile parses one contract file. pkgPath is the import path used for
 // unqualified function names ("" for .spec files, which use full paths).
@@ -209,13 +211,23 @@ func (s *Specs) LoadFile(path, pkgPath string) error {
 			} else if cur != nil {
 				cur.Props = append(cur.Props, strings.Fields(rest)...)
 			}
-		case "requires", "ensures":
+		case "requires", "ensures", "assumes":
 			if cur == nil {
 				return fail(l, "%s outside func block", kw)
 			}
 			c, err := parseClause(l, rest)
 			if err != nil {
 				return err
+			}
+			if kw == "assumes" {
+				c.Assumed = true
+				c.Implicit = true // not checked against the body
+				if c.Label == "" {
+					c.Label = "assumed" + strconv.Itoa(len(cur.Ensures)+1)
+				}
+				cur.Ensures = append(cur.Ensures, c)
+				cur.AssumedClauses = append(cur.AssumedClauses, c.Label+": "+c.Src)
+				continue
 			}
 			if kw == "requires" {
 				if c.Label == "" {
@@ -303,9 +315,14 @@ func (s *Specs) LoadFile(path, pkgPath string) error {
 			}
 			g := strings.TrimSpace(rest[:i])
 			cur.Sets = append(cur.Sets, LetDef{g, e})
-			// callers learn the new value through an implicit postcondition
-			ie, _ := ParseExpr(g + " == (" + src + ")")
-			cur.Ensures = append(cur.Ensures, Clause{Label: "sets_" + g, Src: g + " == (" + src + ")", E: ie, File: path, Line: l.line, Implicit: true})
+			// callers learn the new value through an implicit postcondition, unless the
+			// update is relative to the value at exit (mentions the ghost outside old()):
+			// then the contract must state what callers may rely on
+			stripped := strings.ReplaceAll(src, "old("+g+")", "")
+			if !regexp.MustCompile(`\b` + regexp.QuoteMeta(g) + `\b`).MatchString(stripped) {
+				ie, _ := ParseExpr(g + " == (" + src + ")")
+				cur.Ensures = append(cur.Ensures, Clause{Label: "sets_" + g, Src: g + " == (" + src + ")", E: ie, File: path, Line: l.line, Implicit: true})
+			}
 		case "let":
 			if cur == nil {
 				return fail(l, "let outside func block")
